@@ -4,6 +4,7 @@ import (
 	"fmt"
 	"go/token"
 	"go/types"
+	"regexp"
 	"sort"
 	"strings"
 
@@ -20,14 +21,16 @@ func ngapEntries(c *core.Ctx) []*ssa.Function {
 }
 
 func c03(c *core.Ctx) map[string]interface{} {
-	c.Explanation = "Static check of the inputs and error discipline of the aligned-PER encoder (C03). Decided: (R0.nilglobal) the codec does not dereference a never-initialised package-level pointer on its way (it would panic on every message); (R3.tag) for all structs of ngapType: every aper tag part belongs to the vocabulary the codec parses and its number parses, fields are exported, `optional` sits only on nil-able fields, every CHOICE use site carries valueLB:0,valueUB:n-1 for its n alternatives, ENUMERATED bounds equal the declared enumerators 0..UB, open-type fields name an earlier field, every alternative of an open type has a referenceFieldValue that is unique in its type and equals ProtocolIEID<Field> resp. the procedure code of TS 38.413 9.4.4 for the three message-class containers, <T>Present<Field> constants equal field indices; (R3.types) the tags of the leaf types on the emulator's path equal TS 38.413 9.4.5; (R3.err) in the encoder no error that was created or received is lost: on every path from its creation it is returned or tested, except calls proven infallible (putBitsValue of a constant that fits); (R3.len) the length determinant encoder emits X.691 10.9 forms: one octet 0xxxxxxx up to 127, two octets 10xxxxxx xxxxxxxx up to 16383 (bit provenance), with the same thresholds the decoder uses; (R3.int) INTEGER octet counting: constrained ranges above 64K count octets of the non-negative value (shift 8), unconstrained/extended ones of the two's complement value (shift 7); (R3.clone) encoder and decoder agree where they are clones: constrained-whole-number guard chains, octets-of-range loops, length-range guards, SEQUENCE OF bounds and lower-bound handling; (R3.mask) BIT STRING padding bits of the last octet are cleared before they reach the wire. NOT decided: that the bit patterns equal X.691 for every value (the arithmetic of the primitives as a whole)."
+	c.Explanation = "Static check of the inputs and error discipline of the aligned-PER encoder (C03). Decided: (R0.nilglobal) the codec does not dereference a never-initialised package-level pointer on its way (it would panic on every message); (R3.tag) for all structs of ngapType: every aper tag part belongs to the vocabulary the codec parses and its number parses, fields are exported, `optional` sits only on nil-able fields, every CHOICE use site carries valueLB:0,valueUB:n-1 for its n alternatives, ENUMERATED bounds equal the declared enumerators 0..UB, open-type fields name an earlier field, every alternative of an open type has a referenceFieldValue that is unique in its type and equals ProtocolIEID<Field> resp. the procedure code of TS 38.413 9.4.4 for the three message-class containers, <T>Present<Field> constants equal field indices; (R3.schema) every struct of ngapType has exactly the fields, field order, constraint tags and Go types, and every constant (enumerators, Present indices, IE ids, procedure codes) the value, of the frozen TS 38.413 schema table (5630 rows): a widened root, an edited bound, a renumbered enumerator or a moved field changes the encoding of every value of that type and is reported with the row; (R3.types) the tags of the leaf types on the emulator's path equal TS 38.413 9.4.5; (R3.err) in the encoder no error that was created or received is lost: on every path from its creation it is returned or tested, except calls proven infallible (putBitsValue of a constant that fits); (R3.len) the length determinant encoder emits X.691 10.9 forms: one octet 0xxxxxxx up to 127, two octets 10xxxxxx xxxxxxxx up to 16383 (bit provenance), with the same thresholds the decoder uses; (R3.strlen) in the four BIT/OCTET STRING primitives, on every path up to the first length determinant, the count is offset by the lower bound exactly when the size is constrained with ub < 64K and is sent as n itself with the general determinant (X.691 10.9.3.3 / 10.9.3.5), on the encoder and the decoder side; (R3.int) INTEGER octet counting: constrained ranges above 64K count octets of the non-negative value (shift 8), unconstrained/extended ones of the two's complement value (shift 7); (R3.clone) encoder and decoder agree where they are clones: constrained-whole-number guard chains, octets-of-range loops, length-range guards, SEQUENCE OF bounds and lower-bound handling; (R3.mask) BIT STRING padding bits of the last octet are cleared before they reach the wire. NOT decided: that the bit patterns equal X.691 for every value (the arithmetic of the primitives as a whole)."
 	c.Assumptions = []string{"TS 38.413 constraints were transcribed by hand for the listed leaf types", "reflect is used only on exported fields of exported struct types (checked by R3.tag)"}
 	r0nilglobal(c, ngapEntries(c)...)
 	s := buildSchema(c)
 	r3tag(c, s)
+	r3schema(c, s)
 	r3types(c, s)
 	r3err(c)
 	r3len(c)
+	r3strlen(c)
 	r3int(c)
 	r3clone(c)
 	r3mask(c)
@@ -437,4 +440,178 @@ func posStr(def ssa.Instruction, r ssa.Instruction) string {
 		return "the end of the function"
 	}
 	return fmt.Sprintf("line %d", p.Line)
+}
+
+var rangeForm = regexp.MustCompile(`^\(\(p\d+-(p\d+|0)\)\+1\)$`)
+
+// ---------------------------------------------------------------- R3.strlen
+// Length determinant of BIT STRING / OCTET STRING (X.691 16.8-16.11, 17.5-17.8 with
+// 10.9.3): a constrained size with ub < 64K sends n - lb as a constrained whole
+// number; in every other case (no bound, ub >= 64K, or a size outside the root of an
+// extensible constraint) the general length determinant sends n itself. On every
+// path of the four string primitives up to the first length determinant the pair
+// (size range handed to appendLength/parseLength, offset subtracted from / added to
+// the count) must therefore be (-1, 0) or (range, *lowerBound).
+func r3strlen(c *core.Ctx) {
+	const R = "R3.strlen"
+	c.Rule(R, "BIT/OCTET STRING length: n - lb only with a constrained size (ub < 64K); n itself with the general length determinant (encoder and decoder)")
+	for _, spec := range []struct {
+		fn     string
+		lenFn  string
+		lbPar  int // parameter index of lowerBoundPtr
+		encode bool
+	}{
+		{"perRawBitData.appendBitString", "perRawBitData.appendLength", 4, true},
+		{"perRawBitData.appendOctetString", "perRawBitData.appendLength", 3, true},
+		{"perBitData.parseBitString", "perBitData.parseLength", 2, false},
+		{"perBitData.parseOctetString", "perBitData.parseLength", 2, false},
+	} {
+		fn := mustFunc(c, pAper, spec.fn)
+		p := core.NewPather(fn)
+		calls := core.CallsTo(fn, pAper+"."+spec.lenFn)
+		if len(calls) != 1 {
+			c.SoftUndecided("%s: expected one call of %s, found %d", spec.fn, spec.lenFn, len(calls))
+			continue
+		}
+		lenCall := calls[0].(*ssa.Call)
+		// the offset: encoder `count - uint64(lb)` feeding the loop; decoder `length + uint64(lb)`
+		var lbVal ssa.Value
+		if spec.encode {
+			for _, b := range fn.Blocks {
+				for _, in := range b.Instrs {
+					if bo, ok := in.(*ssa.BinOp); ok && bo.Op == token.SUB && bo.Block().Dominates(lenCall.Block()) {
+						if _, isConv := bo.Y.(*ssa.Convert); isConv && !strings.Contains(p.Path(bo.X), "-") {
+							if _, isK := core.ConstInt(bo.Y); !isK {
+								lbVal = bo.Y
+							}
+						}
+					}
+				}
+			}
+		} else {
+			ex := extractOf(lenCall, 0)
+			if ex != nil {
+				for _, r := range core.Referrers(ex) {
+					// through the `rawLength = length` merge
+					cands := []ssa.Value{ex}
+					if ph, ok := r.(*ssa.Phi); ok {
+						cands = append(cands, ph)
+					}
+					for _, cv := range cands {
+						for _, r2 := range core.Referrers(cv) {
+							if bo, ok := r2.(*ssa.BinOp); ok && bo.Op == token.ADD {
+								if bo.X == cv {
+									lbVal = bo.Y
+								} else {
+									lbVal = bo.X
+								}
+							}
+						}
+					}
+				}
+			}
+		}
+		if lbVal == nil {
+			c.SoftUndecided("%s: the lower-bound offset applied to the length was not found", spec.fn)
+			continue
+		}
+		lbPtr := fmt.Sprintf("p%d", spec.lbPar)
+		type obs struct {
+			rng, lb string
+			noUB    bool // the path established that there is no upper bound
+		}
+		ubPtr := "p" + itoa(spec.lbPar+1)
+		seen := map[obs]string{}
+		ev := func(in ssa.Instruction) string {
+			if in == ssa.Instruction(lenCall) {
+				return "probe:" + p.Path(lenCall.Call.Args[1]) + "|" + p.Path(lbVal)
+			}
+			if _, isRet := in.(*ssa.Return); isRet {
+				return "ret"
+			}
+			return ""
+		}
+		stop := false
+		ev2 := func(in ssa.Instruction) string {
+			if stop {
+				stop = false
+			}
+			e := ev(in)
+			return e
+		}
+		br := func(cond ssa.Value) string { return clip(p.Path(cond)) }
+		paths, ok := core.EventPathsR(fn, p, func(in ssa.Instruction) string {
+			e := ev2(in)
+			if strings.HasPrefix(e, "probe:") {
+				return e
+			}
+			return e
+		}, br, 1, 20000)
+		if !ok {
+			c.Undecided("%s has more than 20000 paths", spec.fn)
+		}
+		nProbe := 0
+		for _, path := range paths {
+			for i, e := range path {
+				if !strings.HasPrefix(e, "probe:") {
+					continue
+				}
+				nProbe++
+				parts := strings.SplitN(strings.TrimPrefix(e, "probe:"), "|", 2)
+				pre := strings.Join(path[:i], " ")
+				o := obs{parts[0], parts[1], strings.Contains(pre, "("+ubPtr+"==nil)=T") || strings.Contains(pre, "("+ubPtr+"!=nil)=F")}
+				if _, dup := seen[o]; !dup {
+					seen[o] = strings.Join(path[:i], " ")
+				}
+				break // first determinant of the path only
+			}
+		}
+		if nProbe == 0 {
+			c.SoftUndecided("%s: no path reaches the length determinant", spec.fn)
+			continue
+		}
+		var keys []obs
+		for o := range seen {
+			keys = append(keys, o)
+		}
+		sort.Slice(keys, func(i, j int) bool {
+			return keys[i].rng+keys[i].lb+fmt.Sprint(keys[i].noUB) < keys[j].rng+keys[j].lb+fmt.Sprint(keys[j].noUB)
+		})
+		for _, o := range keys {
+			key := fmt.Sprintf("aper.%s:range=%s:offset=%s", spec.fn, o.rng, o.lb)
+			if o.noUB {
+				key += ":no-upper-bound"
+			}
+			general := o.rng == "-1"
+			// a range (ub - L) + 1 is at least 1 (R3.tag: sizeLB <= sizeUB): a path that took
+			// `range == -1` as true with such a range is infeasible
+			if !general && (strings.Contains(seen[o], "("+o.rng+"==-1)=T") || strings.Contains(seen[o], "("+o.rng+"!=-1)=F")) {
+				continue
+			}
+			// the lower bound L the range was computed with
+			rangeLB := ""
+			if m := rangeForm.FindStringSubmatch(o.rng); m != nil {
+				rangeLB = m[1]
+			}
+			switch {
+			case !general && rangeLB != "" && o.lb == rangeLB:
+				c.Ok(R, key, lenCall.Pos(), "constrained size: n - lb with the lb of the range")
+			case general && o.lb == "0":
+				c.Ok(R, key, lenCall.Pos(), "general length determinant carries n")
+			case general && o.lb == lbPtr:
+				// semi-constrained size (lower bound only) or ub >= 64K with the bound still applied
+				if o.noUB {
+					c.Except(R, key, lenCall.Pos(), "semi-constrained size (lower bound without upper bound): n - lb is sent where X.691 10.9.3.5 sends n; no NGAP type has such a constraint (R3.schema), so no encoding is affected")
+				} else {
+					c.Fail(R, key, lenCall.Pos(), "the general length determinant (size range -1) is used together with the offset *lowerBound: X.691 10.9.3.5 sends the count n itself, n - lb belongs to constrained sizes with ub < 64K only (path: %s)", clip(seen[o]))
+				}
+			case !general && o.lb == lbPtr:
+				c.Ok(R, key, lenCall.Pos(), "constrained size: n - lb in ceil(log2(range)) bits")
+			case !general && o.lb == "0":
+				c.Fail(R, key, lenCall.Pos(), "a constrained size range (%s) is used with offset 0: X.691 10.9.3.3 sends n - lb (path: %s)", o.rng, clip(seen[o]))
+			default:
+				c.SoftUndecided("%s: length determinant with range %s and offset %s not classified", spec.fn, o.rng, o.lb)
+			}
+		}
+	}
 }
